@@ -22,6 +22,7 @@
 
 #include <cassert>
 #include <cctype>
+#include <cfloat>
 #include <cmath>
 #include <cstdio>
 #include <cstdlib>
@@ -62,8 +63,13 @@ using std::size_t;
 // number strings when we don't have to,
 const size_t    MAX_PRINTF_DIGITS = 100;
 
-// The maximum number of characters for a floating point number.
-const size_t    MAX_FLOAT_CHARACTERS = 100;
+// The maximum number of characters sprintf("%.<N>f") can produce for a
+// double, including the terminating null: a sign, the DBL_MAX_10_EXP + 1
+// digits of the integer part of DBL_MAX, the decimal point, the largest
+// precision in thePrintfStrings and the null.
+const size_t    MAX_FLOAT_PRECISION = 35;
+
+const size_t    MAX_FLOAT_CHARACTERS = 1 + (DBL_MAX_10_EXP + 1) + 1 + MAX_FLOAT_PRECISION + 1;
 
 
 
@@ -1439,7 +1445,7 @@ DOMStringHelper::NumberToCharacters(
     }
     else
     {
-        char            theBuffer[MAX_PRINTF_DIGITS + 1];
+        char            theBuffer[MAX_FLOAT_CHARACTERS];
 
         using std::sprintf;
         using std::atof;
@@ -1503,7 +1509,7 @@ DOMStringHelper::NumberToCharacters(
             }
         }
 
-        XalanDOMChar    theResult[MAX_PRINTF_DIGITS + 1];
+        XalanDOMChar    theResult[MAX_FLOAT_CHARACTERS];
 
         TranscodeNumber(
                 theBuffer,
@@ -1739,7 +1745,7 @@ NumberToDOMString(
     }
     else
     {
-        char            theBuffer[MAX_PRINTF_DIGITS + 1];
+        char            theBuffer[MAX_FLOAT_CHARACTERS];
 
         using std::sprintf;
         using std::atof;
